@@ -189,7 +189,12 @@ impl ReaderGroup {
         new_group
     }
 
-    pub fn get_max_diff(&self, cur_writer: usize) -> Option<Index> {
+    pub fn get_max_diff(&self, cur_writer: usize, capacity: Index) -> Option<Index> {
+        // With no stream left nothing will free a slot any more: the ring counts as full
+        // (the senders are about to see the no-receiver signal) rather than as empty
+        if self.readers.is_empty() {
+            return Some(capacity);
+        }
         let mut max_diff: usize = 0;
         unsafe {
             for reader_ptr in &self.readers {
@@ -225,12 +230,12 @@ impl ReadCursor {
         }
     }
 
-    pub fn get_max_diff(&self, cur_writer: usize) -> Option<Index> {
+    pub fn get_max_diff(&self, cur_writer: usize, capacity: Index) -> Option<Index> {
         loop {
             unsafe {
                 let first_ptr = self.readers.load(CONSUME);
                 let rg = &*first_ptr;
-                let rval = rg.get_max_diff(cur_writer);
+                let rval = rg.get_max_diff(cur_writer, capacity);
                 // This check ensures that the pointer hasn't changed
                 // We must first read the diff, *and then* check the pointer
                 // for changes.
